@@ -258,9 +258,9 @@ func (in interner) id(s string) int {
 }
 
 type snapshot struct {
-	proj  map[int][]string    // principal -> component strings
-	store map[string][]byte   // whole Paloma multistore, "store|key" -> value (suspect diff)
-	grant map[[2]int]bool     // active fee allowances between A and B
+	proj  map[int][]string  // principal -> component strings
+	store map[string][]byte // whole Paloma multistore, "store|key" -> value (suspect diff)
+	grant map[[2]int]bool   // active fee allowances between A and B
 }
 
 // palomaStores: every KV store owned by a Paloma module.
